@@ -10,10 +10,12 @@
 (C) random boxes to 1e8 pixels away, images to 40x40, numpy integer bounds: recorded results
     validated by Trace_Placement.tla.
 """
+import contextlib
 import json
 import math
 import os
 import random
+import warnings
 
 import numpy as np
 
@@ -108,6 +110,13 @@ def replay(ctx, st, idx):
     val = (lambda d: d) if kind == 'int' else (lambda d: A_ * d + B_)
     sig = f'C05|{op}|'
     ny, nx = box[3] - box[2], box[1] - box[0]
+    # every other state runs with warnings turned into errors (python -W error, pytest filterwarnings = error): "never an exception"
+    # holds there as well, so the library may not let a warning of its own arithmetic (inf * 0, NaN casts) escape
+    strict = contextlib.ExitStack()
+    if idx % 2 == 1:
+        strict.enter_context(warnings.catch_warnings())
+        warnings.simplefilter('error')
+        case['warnings'] = 'error'
     try:
         if op == 'to_image':
             dt = DTYPES[arg]
@@ -227,6 +236,8 @@ def replay(ctx, st, idx):
                     return ctx.violation(sig + 'nonfinite', f'get_values on data holding NaN/inf returned {len(o2)} value(s) {o2.tolist()}, expected {len(exp2)}: {exp2}', case)
     except Exception as ex:  # noqa
         return ctx.violation(sig + f'raises|{type(ex).__name__}', f'{op} raised {ex!r}', case)
+    finally:
+        strict.close()
     if plain(img).tobytes() != img_before or mask.data.tobytes() != m_before:
         return ctx.violation(sig + 'mutated', f'{op} modified its input', case)
     return False
